@@ -93,3 +93,6 @@ func VerifProvisionUpstream(u *Upstream, passive *PassiveHealthChecks) (*Handler
 
 // VerifFull reports u.full().
 func VerifFull(u *Upstream) bool { return u.full() }
+
+// VerifCountConn adjusts the connection count of peer i of u the way Handle does.
+func VerifCountConn(u *Upstream, i int, delta int) { _ = u.peers[i].countConn(delta) }
